@@ -210,6 +210,26 @@ fn tails(e: &Enc) -> Vec<Vec<u8>> {
     }
     v.push(vec![0xFF, 0xFF, 0x80, 0xFF]);
     v.truncate(24);
+    // two valid multi-byte characters in a row, optionally followed by one ASCII byte (what is
+    // left after a character matters to the validators' tail handling)
+    let valid: Vec<Vec<u8>> = v
+        .iter()
+        .filter(|w| w.len() >= 2 && {
+            let (t, _) = spec::ref_decode_all(e, BomMode::Off, w);
+            t.len() == 1 && matches!(t[0], Tok::Char(_))
+        })
+        .take(4)
+        .cloned()
+        .collect();
+    for a in &valid {
+        for b in &valid {
+            let mut w = a.clone();
+            w.extend_from_slice(b);
+            v.push(w.clone());
+            w.push(b'!');
+            v.push(w);
+        }
+    }
     v
 }
 
@@ -259,7 +279,7 @@ pub fn run(tier: Tier) -> (Stats, VioSet) {
         }
         for &n in &ns {
             let run: Vec<u8> = (0..n).map(|i| b'a' + (i % 26) as u8).collect();
-            for t in tl.iter().take(if q && n > 40 { 8 } else { 24 }) {
+            for t in tl.iter().take(if q && n > 40 { 8 } else { 64 }) {
                 for suf in [0usize, 1, 17] {
                     if q && suf == 1 && n % 2 == 1 {
                         continue;
